@@ -14,6 +14,7 @@ CONSTANTS
   ApiOps = TRUE
   SeqReq = FALSE
   Reqs = {}
+  LocalKinds = {}
 INIT Init
 NEXT Next
 VIEW View
